@@ -2,13 +2,16 @@ package props
 
 import (
 	"fmt"
+	"math/rand"
 	"sort"
+	"strings"
 
 	"github.com/d5/tengo/v2"
 	"github.com/d5/tengo/v2/parser"
 
 	"verif/fw"
 	"verif/gen"
+	"verif/ref"
 )
 
 // C03 — dead-code elimination never changes what a program does.
@@ -172,16 +175,41 @@ func (c *c03) RunCase(r *fw.Rec, cs fw.Case) {
 	if rng.Intn(3) == 0 {
 		opts.ClosureHeavy = true
 	}
-	var src string
-	if cs.Index < len(c03Directed) {
+	var src, modSrc string
+	switch {
+	case cs.Index < len(c03Directed):
 		src = c03Directed[cs.Index]
-	} else {
+	case cs.Index < len(c03Directed)+len(c03DirectedMods):
+		src, modSrc = "m := import(\"mod1\")\nout := m\n", c03DirectedMods[cs.Index-len(c03Directed)]
+	case cs.Index%400 == 399:
+		src = c03Big(rng)
+		r.Inc("programs:function-larger-than-64KiB")
+	case cs.Index%8 == 7:
+		// the dead code sits in the top-level code of a module
+		mo := opts
+		mo.InModule, mo.ExportType, mo.ErrRate = true, gen.TInt, pick(rng, []float64{0, 0.05, 0.15})
+		modSrc = gen.Generate(gen.New(rng, mo)).Src
+		if rng.Intn(2) == 0 {
+			modSrc = pick(rng, c03ModPrefixes) + modSrc
+		}
+		src = "m := import(\"mod1\")\nout := m\n"
+		r.Inc("programs:module-body")
+	default:
 		src = gen.Generate(gen.New(rng, opts)).Src
 	}
-	r.Logf("---- source ----\n%s\n----", src)
-	if ok, why := modelSpecified(src, nil, cs.Seed+int64(cs.Index)); !ok {
-		r.Inc("discarded(unspecified):" + trunc(why, 50))
-		return
+	r.Logf("---- source ----\n%s\n---- module ----\n%s\n----", src, modSrc)
+	var refMods map[string]*ref.Module
+	var mods *tengo.ModuleMap
+	if modSrc != "" {
+		refMods = map[string]*ref.Module{"mod1": {Src: []byte(modSrc)}}
+		mods = tengo.NewModuleMap()
+		mods.AddSourceModule("mod1", []byte(modSrc))
+	}
+	if len(src) < 100000 {
+		if ok, why := modelSpecified(src, refMods, cs.Seed+int64(cs.Index)); !ok {
+			r.Inc("discarded(unspecified):" + trunc(why, 50))
+			return
+		}
 	}
 	var recs []optRecord
 	tengo.VerifOptimized = func(orig []byte, posMap map[int]int, opt []byte, so, sn map[int]parser.Pos, ar bool) {
@@ -201,17 +229,20 @@ func (c *c03) RunCase(r *fw.Rec, cs fw.Case) {
 	defer func() { tengo.VerifOptimized = nil; tengo.VerifKeepDeadCode = false }()
 
 	tengo.VerifKeepDeadCode = false
-	optC, err1 := compileRaw([]byte(src), nil, nil)
+	optC, err1 := compileRaw([]byte(src), nil, mods)
 	optRecs := recs
 	recs = nil
 	tengo.VerifKeepDeadCode = true
-	keepC, err2 := compileRaw([]byte(src), nil, nil)
+	keepC, err2 := compileRaw([]byte(src), nil, mods)
 	keepRecs := recs
 	tengo.VerifKeepDeadCode = false
 	tengo.VerifOptimized = nil
 	r.Eval()
 	r.Inc("programs")
-	detail := map[string]interface{}{"source": src}
+	detail := map[string]interface{}{"source": trunc(src, 3000)}
+	if modSrc != "" {
+		detail["module mod1"] = modSrc
+	}
 	if (err1 == nil) != (err2 == nil) || (err1 != nil && err1.Error() != err2.Error()) {
 		detail["optimized_compile_error"] = fmt.Sprint(err1)
 		detail["keepdead_compile_error"] = fmt.Sprint(err2)
@@ -310,6 +341,53 @@ func countInstr(ins []byte) int {
 		n++
 	}
 	return n
+}
+
+// module bodies with eliminated top-level code followed by a failure at the top level of the module
+var c03DirectedMods = []string{
+	"a := 1\nif a == 2 {\n  export 5\n  a = 3\n}\nb := a + \"x\" - 1\nexport b\n",
+	"f := func(x) { return x }\nfor i := 0; i < 3; i++ {\n  if i == 1 {\n    continue\n    i = 7\n  }\n}\nc := [1][f(4)]\nexport c\n",
+	"cfg := {}\nif is_undefined(cfg.k) {\n  cfg.k = 1\n} else {\n  return 0\n  cfg.k = 2\n}\n\n\nv := cfg.k.z.w + 1\nexport v\n",
+}
+
+// prefixes that put removable code in front of a generated module body
+var c03ModPrefixes = []string{
+	"p0 := 1\nif p0 == 2 {\n  return 5\n  p0 = 3\n}\n",
+	"for p1 := 0; p1 < 2; p1++ {\n  if p1 == 0 { continue; p1 = 9 }\n  break\n  p1 = 5\n}\n",
+	"p2 := func() { return 1; return 2 }\nif p2() == 7 {\n  export 1\n  p2 = undefined\n} else {\n}\n",
+}
+
+// c03Big: one function whose instruction stream is longer than 64 KiB, so that jump operands no
+// longer fit 16 bits; returns, breaks and short-circuit jumps sit on both sides of the boundary.
+func c03Big(r *rand.Rand) string {
+	var sb strings.Builder
+	n := 7300 + r.Intn(900) // 9 bytes per filler statement
+	sb.WriteString("f := func(x, y) {\n  a := 0\n")
+	head := r.Intn(3)
+	if head == 1 {
+		sb.WriteString("  for i := 0; i < 2; i++ {\n")
+	} else if head == 2 {
+		sb.WriteString("  if x {\n")
+	}
+	for i := 0; i < n; i++ {
+		sb.WriteString("  a += 1\n")
+		if i == n/2 && r.Intn(2) == 0 {
+			sb.WriteString("  if y == 1 { return a; a = -1 }\n")
+		}
+	}
+	if head == 1 {
+		sb.WriteString("    if y == 2 { break; a = -2 }\n  }\n")
+	} else if head == 2 {
+		sb.WriteString("  } else {\n    a = 5\n  }\n")
+	}
+	sb.WriteString(pick(r, []string{
+		"  if x { return 1; a = 7 } else { return 2 }\n  return 3\n",
+		"  b := x && (y || a)\n  if b { return b }\n  return a > 5 ? a : -a\n  a = 0\n",
+		"  for { if a > 10 { break; a = 0 }; a++; if a == 3 { continue; a = 100 } }\n  return x ? a : y\n",
+		"  if y == 3 { return a + \"s\" - 1 }\n  return a\n  return 0\n",
+	}))
+	sb.WriteString("}\nout := [f(true, 0), f(false, 0), f(true, 1), f(false, 2), f(0, 3)]\n")
+	return sb.String()
 }
 
 var c03Directed = []string{
